@@ -459,10 +459,11 @@ def uncg_case(ctx, rng, c, cgsys):
                     bad = (k, s, "group %d total" % g, float(tot), data[k * ns * ng + s * ng + g])
     if bad:
         ctx.violation("uncg:value", "un-coarse-graining: sample %s species %s cell %s is %r, even spreading gives %r" % bad, case, impl=bad[3], expected=bad[4])
-    if str(out.data.units) != str(traj.data.units) or list(out.cgmap) != list(im) or out.system.space.size() != n \
+    got_map = None if out.cgmap is None else list(out.cgmap)
+    if str(out.data.units) != str(traj.data.units) or got_map != list(im) or out.system.space.size() != n \
             or [float(x) for x in out.t.value] != ts:
         ctx.violation("uncg:wrapping", "un-coarse-grained trajectory does not carry the units / times / fine system / map", case,
-                      impl={"units": str(out.data.units), "cgmap": list(out.cgmap)})
+                      impl={"units": str(out.data.units), "cgmap": got_map})
     op = {"op": "uncoarsegrain", "N": N, "ns": ns, "ncg": ng, "nf": n, "im": list(im), "cg": [rstr(v) for v in data]}
     return op, (vals, case)
 
@@ -670,9 +671,14 @@ def run(ctx):
                      nontrivial=nontriv, sample={"op": "coarsegrain_system", "shape": c["shape"], "envs": c["envs"], "map": cj["im"],
                                                  "impl": "raises" if st == "error" else {"nodes": len(cg.space.nodes), "edges": len(cg.space.edges)}})
             # ---- check_index_map_validity on its own (graph of the grid, reflecting copy)
+            c2 = dict(c, periodic=None)
             try:
-                c2 = dict(c, periodic=None)
-                check_index_map_validity(list(c["im"]), grid_to_graph(build(c2).space))
+                graph_of_grid = grid_to_graph(build(c2).space)
+            except Exception as e:  # noqa
+                ctx.violation("grid_to_graph:raises", "grid_to_graph raised %r on a %s grid" % (e, "x".join(map(str, c["shape"]))), case, impl=repr(e))
+                continue
+            try:
+                check_index_map_validity(list(c["im"]), graph_of_grid)
                 st_chk = "ok"
             except Exception as e:  # noqa
                 st_chk = "error"
